@@ -423,8 +423,8 @@ def FACT(number):
     number = utils.parse_number(number)
     if isinstance(number, error.XLError):
         return number
-    if number < 0:
-        return error.NUM
+    if number < 0 or number >= 171:
+        return error.NUM  # 171! is beyond the range of XL numbers
     return math.factorial(int(number))
 
 
@@ -433,8 +433,8 @@ def FACTDOUBLE(number):
     number = utils.parse_number(number)
     if isinstance(number, error.XLError):
         return number
-    if number < 0:
-        return error.NUM
+    if number < 0 or number >= 301:
+        return error.NUM  # 301!! is beyond the range of XL numbers
     number = int(number)
     if number in (0, 1):
         return 1
